@@ -18,6 +18,7 @@ import (
 	"context"
 	"encoding/json"
 	"fmt"
+	"sync"
 	"time"
 
 	"github.com/pkg/errors"
@@ -71,11 +72,16 @@ func (r *resourceLockManager) GetResourceLock() resourcelock.Interface {
 type resourceLock struct {
 	store       storage.KvStorage
 	lockConfig  resourcelock.ResourceLockConfig
-	record      resourcelock.LeaderElectionRecord
-	lastVal     []byte
 	electionKey []byte
-	tso         uint64
 	timeout     time.Duration
+
+	// mu guards record, lastVal and tso: they are written by the leader elector's goroutine
+	// (Get / Create / Update) and read by request handlers through Describe.
+	// It is never held across a call to the storage engine.
+	mu      sync.RWMutex
+	record  resourcelock.LeaderElectionRecord
+	lastVal []byte
+	tso     uint64
 }
 
 // Get implements resourcelock.Interface
@@ -92,7 +98,11 @@ func (r *resourceLock) Get() (*resourcelock.LeaderElectionRecord, error) {
 		return nil, err
 	}
 
-	return &r.record, nil
+	// hand out a copy: the caller reads it without the lock
+	r.mu.RLock()
+	record := r.record
+	r.mu.RUnlock()
+	return &record, nil
 }
 
 func (r *resourceLock) getRecord() (err error) {
@@ -106,20 +116,29 @@ func (r *resourceLock) getRecord() (err error) {
 		}
 		return err
 	}
-	r.lastVal = val
 	var record resourcelock.LeaderElectionRecord
-	if err := json.Unmarshal(val, &record); err != nil {
-		return err
+	unmarshalErr := json.Unmarshal(val, &record)
+	r.mu.Lock()
+	r.lastVal = val
+	if unmarshalErr == nil {
+		r.record = record
 	}
-	r.record = record
-	return nil
+	r.mu.Unlock()
+	return unmarshalErr
 }
 
 func (r *resourceLock) getTso() (err error) {
 	ctx, cancel := r.genContext(context.Background())
 	defer cancel()
-	r.tso, err = r.store.GetTimestampOracle(ctx)
+	tso, err := r.store.GetTimestampOracle(ctx)
+	r.setTso(tso)
 	return err
+}
+
+func (r *resourceLock) setTso(tso uint64) {
+	r.mu.Lock()
+	r.tso = tso
+	r.mu.Unlock()
 }
 
 // Create implements resourcelock.Interface
@@ -136,15 +155,21 @@ func (r *resourceLock) Create(ler resourcelock.LeaderElectionRecord) error {
 	if err != nil {
 		return err
 	}
+	r.mu.Lock()
 	r.lastVal = lerBytes
-	r.tso, err = r.store.GetTimestampOracle(context.Background())
+	r.mu.Unlock()
+	tso, err := r.store.GetTimestampOracle(context.Background())
+	r.setTso(tso)
 	return err
 }
 
 // Update implements resourcelock.Interface
 func (r *resourceLock) Update(ler resourcelock.LeaderElectionRecord) error {
 	klog.V(8).Info("[resource lock] update lock")
-	if r.tso == 0 {
+	r.mu.RLock()
+	tso, lastVal := r.tso, r.lastVal
+	r.mu.RUnlock()
+	if tso == 0 {
 		return errors.New("endpoint not initialized, call get or create first")
 	}
 
@@ -154,7 +179,7 @@ func (r *resourceLock) Update(ler resourcelock.LeaderElectionRecord) error {
 	}
 
 	batch := r.store.BeginBatchWrite()
-	batch.CAS(r.electionKey, recordBytes, r.lastVal, 0)
+	batch.CAS(r.electionKey, recordBytes, lastVal, 0)
 	ctx, cancel := r.genContext(context.Background())
 	defer cancel()
 	err = batch.Commit(ctx)
@@ -162,7 +187,8 @@ func (r *resourceLock) Update(ler resourcelock.LeaderElectionRecord) error {
 		return err
 	}
 
-	r.tso, err = r.store.GetTimestampOracle(context.Background())
+	tso, err = r.store.GetTimestampOracle(context.Background())
+	r.setTso(tso)
 	return err
 }
 
@@ -177,10 +203,13 @@ func (r *resourceLock) Identity() string {
 }
 
 func (r *resourceLock) Describe() string {
-	if len(r.record.HolderIdentity) > 0 {
-		return fmt.Sprintf("%s,%d", r.record.HolderIdentity, r.tso)
+	r.mu.RLock()
+	holder, tso := r.record.HolderIdentity, r.tso
+	r.mu.RUnlock()
+	if len(holder) > 0 {
+		return fmt.Sprintf("%s,%d", holder, tso)
 	}
-	return fmt.Sprintf("empty,%d", r.tso)
+	return fmt.Sprintf("empty,%d", tso)
 }
 
 func (r *resourceLock) genContext(ctx context.Context) (newCtx context.Context, cancel func()) {
